@@ -156,6 +156,25 @@ STRESS_SIGS = {
 }
 
 
+def make_overrides():
+    """A fresh user module-like object overriding two definitions; listed BEFORE fa.algorithms in
+    Context(paths=[...]), so its definitions must win, whatever else the process did before."""
+
+    class UserOverrides:
+        @staticmethod
+        def hypot(ctx, x, y):
+            return ctx.sqrt(x * x + y * y)
+
+        @staticmethod
+        def square(ctx, x):
+            return x * x + 0 * x
+
+    UserOverrides.__name__ = "UserOverrides"
+    return UserOverrides
+
+
+PATHS_FUNCS = ["hypot", "square", "absolute", "stress_hypot_user"]
+
 PARAM_FUNCS = ["asinh", "acosh", "asin", "log1p"]
 PARAM_SETS = [{"safe_min_limit": 1.0}, {"safe_max_limit_coefficient": 4.0}, {"use_fast2sum": False},
               {"rewrite_keep_integer_literals": True}]
@@ -187,6 +206,11 @@ def build_universe(fa, extra_targets=()):
                 for params in PARAM_SETS:
                     out.append(dict(target=t, func=func, sig=[s if isinstance(s, str) else s.__name__ for s in sig], sigidx=0,
                                     params=dict(params)))
+        for func in PATHS_FUNCS:
+            sigs = ta.get(func) or ([[ty] * STRESS[func][1] for ty in STRESS_SIGS[t][STRESS[func][2]]] if func in STRESS else [])
+            for i, sig in enumerate(sigs[:2]):
+                out.append(dict(target=t, func=func, sig=[s if isinstance(s, str) else s.__name__ for s in sig], sigidx=i,
+                                params={"__paths__": "overrides"}))
         for name in sorted(STRESS):
             _, nargs, kind = STRESS[name]
             for i, ty in enumerate(STRESS_SIGS[t][kind]):
@@ -198,6 +222,22 @@ def params_tag(params):
     if not params:
         return ""
     return ":params=" + ",".join("%s=%r" % (k, params[k]) for k in sorted(params))
+
+
+def make_context(fa, target, params=None, how="ctor"):
+    """Context as results/update.py makes it for `target`, plus optional context parameters.  The pseudo
+    parameter "__paths__" = "overrides" lists a user module before fa.algorithms."""
+    params = dict(params or {})
+    paths = [fa.algorithms]
+    if params.pop("__paths__", None) == "overrides":
+        paths = [make_overrides(), fa.algorithms]
+    kw = context_params(target)
+    if params and how == "ctor":
+        return fa.Context(paths=paths, parameters=dict(params), **kw), False
+    ctx = fa.Context(paths=paths, **kw)
+    for k in params:
+        ctx.parameters[k] = params[k]
+    return ctx, bool(params)
 
 
 def req_key(r, debug=None):
